@@ -70,6 +70,10 @@ struct sink_forwarder *nondet_forwarder(void);
 void *malloc(size_t);
 static inline struct sink_forwarder *make_forwarder(void *dst) { struct sink_forwarder *f = malloc(sizeof(struct sink_forwarder)); __CPROVER_assume(f != (struct sink_forwarder *)0); f->m_dst = dst; g_fwd_new_calls++; return f; }
 static inline void forwarder_reset(struct sink_forwarder *f, void *dst) { f->m_dst = dst; }
+/* open(protocol) without an error_code: throws on failure; async_connect only calls it on a closed socket */
+struct tcp_socket;
+extern size_t g_open_throwing_calls;
+#define tcp_open_throwing(self, proto) do { g_open_throwing_calls++; (self)->m_open = 1; (self)->m_is_v4 = ((proto) == 4); } while (0)
 /* route::replace_last(forwarder) */
 extern size_t g_replace_last_calls; extern struct sink_forwarder *g_replace_last_fwd;
 static inline void route_replace_last(route_t *r, struct sink_forwarder *f)
